@@ -13,13 +13,14 @@ struct Row {
     tenants: usize,
     threads: usize,
     /// 0 burst, 1 paced, 2 burst-idle-burst, 3 one hot tenant saturating the global bucket,
-    /// 4 within-budget (no refusal possible), 5 refund probe
+    /// 4 within-budget (no refusal possible), 5 refund probe, 6 a tenant's own refusals must not
+    /// burn the global budget (a quiet tenant below its rate is then not refused)
     pattern: u8,
     calls_per_thread: usize,
 }
 
 fn make_row(rng: &mut Rng, idx: usize) -> Row {
-    let pattern = (idx % 6) as u8;
+    let pattern = (idx % 7) as u8;
     let rates = [1u32, 2, 5, 10, 50, 100, 1000, 10_000];
     let rate = rates[rng.usize_below(rates.len())];
     let tenants = rng.range(1, 8) as usize;
@@ -68,7 +69,67 @@ pub fn run(args: &Args) -> Out {
     out
 }
 
+/// pattern 6: a noisy tenant far above its own small rate (its refusals come from its OWN bucket),
+/// then a quiet tenant sends no more than its capacity while the global bucket still has room
+fn run_noisy_quiet(seed: u64, idx: usize, out: &mut Out) {
+    let mut rng = Rng::derive(seed, idx as u64, 0xC19_6);
+    let noisy_rate = rng.range(1, 3) as u32;
+    let quiet_rate = rng.range(3, 20) as u32;
+    let noisy_calls = rng.range(40, 400) as usize;
+    let threads = *rng.pick(&[1usize, 2, 4, 8]);
+    // room for everything that can legitimately be admitted: the noisy tenant's burst + refill over a
+    // generous 2 s, plus the quiet tenant's whole capacity
+    let global = noisy_rate * 3 + quiet_rate + 5 + rng.below(40) as u32;
+    let limiter = Arc::new(RateLimiter::new_with_global(Some(global)));
+    let desc = json!({"row": idx, "seed": seed, "pattern": 6, "noisy_rate": noisy_rate, "quiet_rate": quiet_rate, "noisy_calls": noisy_calls, "threads": threads, "global": global});
+    let t0 = Instant::now();
+    let admitted = Arc::new(AtomicU64::new(0));
+    let hs: Vec<_> = (0..threads)
+        .map(|_| {
+            let (l, a) = (limiter.clone(), admitted.clone());
+            let n = noisy_calls / threads;
+            std::thread::spawn(move || {
+                for _ in 0..n {
+                    if l.check_limit("noisy", noisy_rate) {
+                        a.fetch_add(1, Ordering::SeqCst);
+                    }
+                }
+            })
+        })
+        .collect();
+    for h in hs {
+        let _ = h.join();
+    }
+    let noisy_admitted = admitted.load(Ordering::SeqCst);
+    let mut quiet_refused = 0u64;
+    for _ in 0..quiet_rate {
+        if !limiter.check_limit("quiet", quiet_rate) {
+            quiet_refused += 1;
+        }
+    }
+    let dt = t0.elapsed().as_secs_f64();
+    out.eval();
+    out.distinct(&desc.to_string());
+    out.count("calls", noisy_calls as u64 + quiet_rate as u64);
+    // the global bucket started full (G tokens) and refill only adds: with noisy_admitted + quiet_rate <= G
+    // the quiet tenant (a fresh, full bucket of quiet_rate tokens) cannot legitimately be refused
+    if noisy_admitted + quiet_rate as u64 <= global as u64 && quiet_refused > 0 {
+        out.violation(
+            "tenant-refusal-consumed-global-budget",
+            format!(
+                "quiet tenant (rate {}) had {} of {} requests refused although only {} requests had been admitted against a global limit of {} ({} calls of the noisy tenant were refused by its own bucket, rate {}); elapsed {:.4}s; {}",
+                quiet_rate, quiet_refused, quiet_rate, noisy_admitted, global, noisy_calls as u64 - noisy_admitted, noisy_rate, dt, desc
+            ),
+            desc.clone(),
+        );
+    }
+}
+
 fn run_row(seed: u64, idx: usize, row: &Row, out: &mut Out) {
+    if row.pattern == 6 {
+        run_noisy_quiet(seed, idx, out);
+        return;
+    }
     let limiter = Arc::new(RateLimiter::new_with_global(row.global));
     let desc = json!({"row": idx, "seed": seed, "rate": row.rate, "global": row.global, "tenants": row.tenants, "threads": row.threads, "pattern": row.pattern, "calls_per_thread": row.calls_per_thread});
     let admitted: Arc<Vec<AtomicU64>> = Arc::new((0..row.tenants).map(|_| AtomicU64::new(0)).collect());
@@ -274,7 +335,7 @@ pub fn run_server(args: &Args) -> Out {
         }
         let mut rng = Rng::derive(args.seed, idx as u64, 0xC19_5);
         let rate = *rng.pick(&[2u32, 3, 5, 8]);
-        let global = *rng.pick(&[6usize, 10, 100_000]);
+        let global = *rng.pick(&[6usize, 10, 50, 100_000]);
         let conns = *rng.pick(&[1usize, 2, 4]);
         // one tenant per RPC kind (separate buckets), plus three tenants for the global / no-refusal rows
         let mut tenants: Vec<TenantSpec> = RPCS.iter().enumerate().map(|(i, _)| TenantSpec { id: format!("t{}", i), max_vectors: 100_000, max_qps: rate, enabled: true, admin: false }).collect();
@@ -361,6 +422,30 @@ pub fn run_server(args: &Args) -> Out {
                 }
                 if refd > 0 {
                     out.violation("server-spurious-refusal", format!("tenant g{} (max_qps 40, global {}) had {} of 10 requests refused from a full bucket", i, global, refd), desc.clone());
+                    bad = true;
+                }
+            }
+        }
+        // row C: a tenant's own refusals must not burn the global budget. After an idle second (full
+        // buckets) tenant t0 (max_qps `rate`) fires 60 requests, nearly all refused by its OWN bucket;
+        // then g0 (max_qps 40) sends 10. With admitted(t0) + 10 <= G nothing of g0 may be refused.
+        if global >= 100_000 || global >= rate as usize * 3 + 12 {
+            std::thread::sleep(Duration::from_millis(1100));
+            if let (Ok(mut noisy), Ok(mut quiet)) = (srv.tenant_client("t0"), srv.tenant_client("g0")) {
+                let mut adm = 0u64;
+                for k in 0..60u64 {
+                    adm += fire(&mut noisy, "Query", k, 0, &v).0;
+                }
+                let mut refd = 0u64;
+                for k in 0..10u64 {
+                    refd += fire(&mut quiet, "Query", k, 0, &v).1;
+                }
+                if refd > 0 && adm + 10 <= global as u64 {
+                    out.violation(
+                        "server-tenant-refusal-consumed-global-budget",
+                        format!("tenant g0 (max_qps 40) had {} of 10 requests refused although only {} requests of t0 (max_qps {}) had been admitted against the global limit {}", refd, adm, rate, global),
+                        desc.clone(),
+                    );
                     bad = true;
                 }
             }
